@@ -62,6 +62,7 @@ class Ctx:
         self.model_log = ""
         self.notes: list[str] = []
         self.exhaustive = False
+        self.deepen = 1          # >1 when the tree under test differs from the recorded source fingerprint (quick tier only)
         self.scratch = build.BUILD / f"run-{prop_id}-{os.getpid()}"
         fp = VERIF / "findings" / f"{prop_id}.json"   # committed; aggregated into known_findings.json; never written at run time
         kf = json.loads(fp.read_text()) if fp.exists() else {"findings": []}
@@ -73,7 +74,10 @@ class Ctx:
         return self.tier == "quick"
 
     def budget(self, quick: int, thorough: int) -> int:
-        return quick if self.quick else thorough
+        if not self.quick:
+            return thorough
+        # change-triggered deepening: a tree that differs from the fingerprint gets a larger exploration, never beyond thorough
+        return quick if self.deepen <= 1 else max(quick, min(thorough, quick * self.deepen))
 
     def elapsed(self) -> float:
         return time.time() - self.t0
@@ -139,6 +143,27 @@ class Ctx:
             self.tie_failure("extraction", "vm_compute-vs-ocaml", {"ocaml": x, "coq": y}, v)
 
 
+LOCK = VERIF / "harness" / "anchors.lock.json"
+
+
+def source_fingerprint(repo: Path = None) -> dict:
+    """sha256 of every file the models were written from / validated against: src/_griffe/**/*.py and docs/schema.json."""
+    repo = Path(repo or REPO)
+    files = sorted((repo / "src" / "_griffe").rglob("*.py")) + [repo / "docs" / "schema.json"]
+    return {str(f.relative_to(repo)): hashlib.sha256(f.read_bytes()).hexdigest() for f in files if f.exists()}
+
+
+def source_delta() -> dict:
+    """Files of the tree under test that differ from the fingerprint recorded when the models, proofs and correspondence
+    were last validated against /repo (harness/anchors.lock.json, rewritten by harness.tools.anchor_lock after every landed fix)."""
+    if not LOCK.exists():
+        return {"lock_head": None, "changed_files": ["<no fingerprint recorded>"]}
+    lock = json.loads(LOCK.read_text())
+    now = source_fingerprint()
+    changed = sorted(f for f in set(lock["files"]) | set(now) if lock["files"].get(f) != now.get(f))
+    return {"lock_head": lock.get("head"), "changed_files": changed}
+
+
 def sanity_griffe() -> dict:
     import _griffe
     import griffe
@@ -167,6 +192,12 @@ def run_check(prop_id: str, tier: str, seed: int) -> int:
     mod = importlib.import_module(f"harness.props.{prop_id.lower()}")
     ctx = Ctx(prop_id, tier, seed, mod)
     info = sanity_griffe()
+    delta = source_delta()
+    if delta["changed_files"] and tier == "quick" and os.environ.get("VERIF_NO_DEEPEN") != "1":
+        ctx.deepen = int(os.environ.get("VERIF_DEEPEN", "3"))
+        print(f"[{prop_id}] source differs from the recorded fingerprint in {len(delta['changed_files'])} file(s) "
+              f"({', '.join(delta['changed_files'][:4])}): exploration budgets x{ctx.deepen}", flush=True)
+    info["source_fingerprint"] = {**delta, "changed_files": delta["changed_files"][:40], "deepened_x": ctx.deepen}
     obligations = 0
     discharged = 0
     assumption_report = []
